@@ -203,3 +203,6 @@ add("r18_4_estimate_in_ulp", "C18", "R18.4", "ulp",
     [("float/src/fbig.rs", "            exponent: self.repr.exponent + self.repr.digits() as isize", "            exponent: self.repr.exponent + self.repr.digits_ub() as isize")])
 add("r06_4_sticky_plus", "C06", "R06.4", "to_f32_nontrivial",
     [("integer/src/convert.rs", "                f32::encode((top_u31 | extra_bit) as i32, (n - 31) as i16)", "                f32::encode((top_u31 + extra_bit) as i32, (n - 31) as i16)")])
+
+add("r10_7_tiny_value_digits", "C10", "R10.7", "to_int",
+    [("float/src/convert.rs", "        if self.repr.smaller_than_one() {\n            // |self| < 1 / B^2 <= 1/4: count one digit more", "        if false && self.repr.smaller_than_one() {\n            // |self| < 1 / B^2 <= 1/4: count one digit more")])
